@@ -706,6 +706,141 @@ def explicit_params_rules(prog, chk, pid):
                 "the curve coefficients of explicit parameters are reduced modulo p and encoded with the byte length of p", why)
 
 
+def known_curve_rule(prog, chk, pid):
+    """explicit ECParameters that describe a registered curve decode to THAT curve object (name and OID attached), so that the key re-encodes to the bytes it came from:
+    Curve.from_der compares the decoded parameters with every entry of the registry `curves`.  Accepted: a loop (or next() over a generator) over `curves` itself that
+    returns the entry equal to the decoded curve; or a lookup in a module-level index built from `curves` whose key function is injective on the registered curves
+    (evaluated with the checker's own copy of the curve literals) -- an index keyed by something two registered curves share can only ever return one of them."""
+    P = lambda s_: "%s.%s" % (pid, s_)
+    m = prog.module(E + "curves")
+    fi = prog.method(E + "curves.Curve", "from_der")
+    where = "%s:%d" % (fi.file, fi.lineno)
+    defs = {}   # variable -> Curve(...) call
+    reg = None
+    table_defs = {}
+    for st in prog.live_body(m, m.tree.body):
+        if isinstance(st, ast.Assign) and len(st.targets) == 1 and isinstance(st.targets[0], ast.Name):
+            nm = st.targets[0].id
+            if isinstance(st.value, ast.Call) and getattr(st.value.func, "id", "") == "Curve":
+                defs[nm] = st.value
+            elif nm == "curves" and isinstance(st.value, (ast.List, ast.Tuple)):
+                reg = [e.id for e in st.value.elts if isinstance(e, ast.Name)]
+            else:
+                table_defs[nm] = st.value
+    if reg is None:
+        raise AnalysisError("the registry `curves` is not a module-level list of names")
+    missing = sorted(set(defs) - set(reg))
+    chk.require(not missing, P("known-curve-recognised"), E + "curves", "curves = [%d entries]" % len(reg), "", "every curve object defined in the module is registered", "defined but not registered: %s" % missing)
+    tmp = None
+    for n in ast.walk(fi.node):
+        if isinstance(n, ast.Assign) and len(n.targets) == 1 and isinstance(n.targets[0], ast.Name) and isinstance(n.value, ast.Call) and n.value.args \
+                and isinstance(n.value.args[0], ast.Constant) and n.value.args[0].value == "unknown":
+            tmp = n.targets[0].id
+    if tmp is None:
+        chk.incomplete(P("known-curve-recognised"), "Curve.from_der no longer builds the decoded curve as Curve('unknown', ...)")
+        return
+
+    def covers(e):
+        if isinstance(e, ast.Name):
+            if e.id == "curves":
+                return True
+            return e.id in table_defs and covers(table_defs[e.id])
+        if isinstance(e, ast.Call) and isinstance(e.func, ast.Name) and e.func.id in ("reversed", "tuple", "list", "iter", "sorted") and len(e.args) >= 1:
+            return covers(e.args[0])
+        return False
+
+    def is_eq(test, x):
+        return (isinstance(test, ast.Compare) and len(test.ops) == 1 and isinstance(test.ops[0], ast.Eq)
+                and {getattr(test.left, "id", None), getattr(test.comparators[0], "id", None)} == {tmp, x})
+
+    found = None
+    for n in ast.walk(fi.node):
+        if isinstance(n, ast.For) and isinstance(n.target, ast.Name):
+            x = n.target.id
+            hit = any(isinstance(i_, ast.If) and is_eq(i_.test, x) and any(isinstance(r_, ast.Return) and getattr(r_.value, "id", None) == x for r_ in i_.body) for i_ in n.body)
+            if hit:
+                found = ("loop", covers(n.iter), ast.unparse(n.iter))
+        elif isinstance(n, ast.GeneratorExp) and len(n.generators) == 1 and isinstance(n.generators[0].target, ast.Name):
+            g = n.generators[0]
+            x = g.target.id
+            if getattr(n.elt, "id", None) == x and len(g.ifs) == 1 and is_eq(g.ifs[0], x):
+                found = ("loop", covers(g.iter), ast.unparse(g.iter))
+    if found is not None and found[1]:
+        chk.ok(P("known-curve-recognised"), fi.qualname, "for c in %s: if decoded == c: return c" % found[2], where, "the decoded parameters are compared with every registered curve")
+        return
+    # an index built from the registry
+    lits = None
+    idx = None
+    for n in ast.walk(fi.node):
+        if isinstance(n, ast.Name) and n.id in table_defs and any(isinstance(k, ast.Name) and k.id == "curves" for k in ast.walk(table_defs[n.id])):
+            idx = n.id
+    if idx is None:
+        if found is not None:
+            chk.fail(P("known-curve-recognised"), fi.qualname, "for c in %s" % found[2], where, "the decoded parameters are compared with a subset of the registry only: a registered curve outside it decodes as an anonymous curve without name and OID")
+        else:
+            chk.incomplete(P("known-curve-recognised"), "the way Curve.from_der looks the decoded parameters up in the registry is not one the rule knows")
+        return
+    v = table_defs[idx]
+    comp = None
+    if isinstance(v, ast.DictComp):
+        comp = (v.key, v.generators)
+    elif isinstance(v, ast.Call) and getattr(v.func, "id", None) == "dict" and len(v.args) == 1 and isinstance(v.args[0], (ast.GeneratorExp, ast.ListComp)) \
+            and isinstance(v.args[0].elt, ast.Tuple) and len(v.args[0].elt.elts) == 2:
+        comp = (v.args[0].elt.elts[0], v.args[0].generators)
+    if comp is None or len(comp[1]) != 1 or comp[1][0].ifs or not isinstance(comp[1][0].target, ast.Name) or not covers(comp[1][0].iter):
+        chk.incomplete(P("known-curve-recognised"), "index %s is not a dictionary built by one comprehension over the whole registry" % idx)
+        return
+    from rules import c17 as _c17
+
+    lits = _c17.curve_literals(prog)
+    cvar = comp[1][0].target.id
+
+    def attrs_of(var):
+        call = defs.get(var)
+        if call is None or len(call.args) < 3:
+            return None
+        cn = call.args[1].attr if isinstance(call.args[1], ast.Attribute) else getattr(call.args[1], "id", "")
+        lit = lits.get(cn[len("curve_"):]) if cn.startswith("curve_") else None
+        if lit is None:
+            return None
+        return dict(lit, name=call.args[0].value if isinstance(call.args[0], ast.Constant) else None, oid=prog.try_fold(m, call.args[3]) if len(call.args) > 3 else None)
+
+    def ev(e, rec):
+        if isinstance(e, ast.Tuple):
+            return tuple(ev(x, rec) for x in e.elts)
+        if isinstance(e, ast.Constant):
+            return e.value
+        src = ast.unparse(e).replace(" ", "")
+        table = {cvar + ".curve.p()": "p", cvar + ".curve.a()": "a", cvar + ".curve.b()": "b", cvar + ".curve.cofactor()": "h", cvar + ".generator.x()": "Gx", cvar + ".generator.y()": "Gy",
+                 cvar + ".order": "n", cvar + ".generator.order()": "n", cvar + ".name": "name", cvar + ".oid": "oid"}
+        if src in table:
+            val = rec[table[src]]
+            return tuple(val) if isinstance(val, list) else val
+        raise NotConst(src)
+
+    keys = {}
+    clash = None
+    n_eval = 0
+    try:
+        for var in reg:
+            rec = attrs_of(var)
+            if rec is None:
+                continue  # (the two Edwards curves: their parameters are not among the short-Weierstrass literals)
+            k = ev(comp[0], rec)
+            n_eval += 1
+            if k in keys:
+                clash = (keys[k], var, k)
+                break
+            keys[k] = var
+    except NotConst as e_:
+        chk.incomplete(P("known-curve-recognised"), "key function of index %s is not one the rule can evaluate (%s)" % (idx, e_))
+        return
+    chk.require(clash is None and n_eval >= 17, P("known-curve-recognised"), fi.qualname, "%s = {%s: c for c in curves}" % (idx, ast.unparse(comp[0])), where,
+                "the index key is different for every registered short-Weierstrass curve (%d evaluated)" % n_eval,
+                ("%s and %s share the key %s of index %s: explicit parameters of the one that is overwritten decode as an anonymous curve without name and OID" % (clash[0], clash[1], hex(clash[2]) if isinstance(clash[2], int) else clash[2], idx)) if clash else "only %d registered curves could be evaluated" % n_eval)
+
+
+
 def run(prog, chk, tier):
     from rules import state as _state
 
@@ -724,5 +859,6 @@ def run(prog, chk, tier):
     point_encoding_rules(prog, chk, "C19")
     private_scalar_rules(prog, chk, "C19")
     explicit_params_rules(prog, chk, "C19")
+    known_curve_rule(prog, chk, "C19")
     stackrt.guarded(chk, "C19.der-codec-scenarios", der_codec_scenarios, prog, chk, "C19", tier)
     stackrt.guarded(chk, "C19.pubkey-encoding-scenarios", pubkey_encoding_scenarios, prog, chk, "C19", tier)
